@@ -331,6 +331,10 @@ func genFile(t *rapid.T, big bool) File {
 	if rapid.IntRange(0, 5).Draw(t, "fname-free") == 0 {
 		f.Name = kit.BStr(dropCTLBytes(genStr(t, "fname"))) // a file name is sent inside a MIME header line
 	}
+	if rapid.IntRange(0, 3).Draw(t, "seekable-source") == 0 {
+		f.Seek = true
+		f.Pre = rapid.SampledFrom([]int{0, 1, 16, 512, 600}).Draw(t, "preamble")
+	}
 	switch rapid.IntRange(0, 4).Draw(t, "chunk-kind") {
 	case 0:
 		f.Chunk = kit.BStr(rapid.SampledFrom([]string{"\r\n--", "\r\n", "--", "\x00", "Content-Disposition: form-data; name=\"x\"\r\n\r\n", "<html>", "%PDF-", "\xff\xd8\xff"}).Draw(t, "chunk-c"))
